@@ -15,10 +15,10 @@ import (
 type c16Key struct {
 	Name     string `json:"name"`
 	InPEnv   bool   `json:"in_project_env"`
-	InFiles  []bool `json:"in_files"`  // per env file
-	EnvMode  string `json:"env_mode"`  // "" (absent) | value | novalue | empty
-	RefTo    string `json:"ref_to"`    // when set: the value in the LAST file that defines it is `${RefTo}-r`
-	RefLayer int    `json:"ref_layer"` // informational
+	InFiles  []bool `json:"in_files"`           // per env file
+	EnvMode  string `json:"env_mode"`           // "" (absent) | value | novalue | empty
+	RefTo    string `json:"ref_to"`             // when set: the value in the LAST file that defines it is `${RefTo}-r`
+	RefLayer int    `json:"ref_layer"`          // informational
 	RefDash  bool   `json:"ref_dash,omitempty"` // the reference is written ${RefTo-dflt}: a key defined empty is still defined
 	EmptyIn  []bool `json:"empty_in,omitempty"` // env file i defines the key with the empty string (`KEY=`): a definition like any other
 }
